@@ -4,6 +4,7 @@ import PGM.Driver.C12
 import PGM.Driver.C01
 import PGM.Driver.C04
 import PGM.Driver.C09
+import PGM.Driver.C08
 import PGM.Driver.C11
 /-!
 Line-protocol driver: one JSON request per input line, one JSON response per output line.
@@ -25,6 +26,9 @@ def dispatch (req : Json) : Except String Json := do
   | "many" => handleMany req
   | "loss" => handleLoss req
   | "total" => handleTotal req
+  | "solve" => handleSolve req
+  | "bp_f" => handleBPF req
+  | "mle_f" => handleMLE req
   | "col_check" => handleColCheck req
   | _ => throw s!"unknown op {op}"
 
